@@ -208,7 +208,7 @@ def run(check):
     check.rule = ("generated programs of all shapes plus programs with !oneof/!ordisabled/!soft-optional/!wait-optional tags nested in maps and lists; for each accepted "
                   "program the graph read through DAG() (nodes with kinds, typed outstanding dependencies) must equal the graph derived from the program by "
                   "vlib/dagref.py (lifecycle edges, one dependency per reference of the kind its tag requires, nothing else); and every single-point corruption "
-                  "(cycles through input/wait_for/enabled/stop_if/deploy, self reference, unknown step/stage/output/field/input field in step inputs and outputs, "
+                  "(cycles through input/wait_for/enabled/stop_if/deploy, also in workflows and sub-workflows of a single step, self reference, unknown step/stage/output/field/input field in step inputs and outputs, "
                   "ill-typed literals and expressions per field type, missing required input (plugin input, loop items), stop_if on a step without cancellation handler, unknown keys, wrong `step:`, no outputs) must be rejected by Prepare; "
                   "non-trivial = program with >=1 cross-step reference; distinct = (shape, graph size) and (corruption kind, shape)")
     check.assumptions = ["expected lifecycle edges are those of the two step providers as read from their sources (Appendix A)"]
@@ -232,6 +232,26 @@ def run(check):
             case = {"id": "c10-%05d" % idx, "files": p.files(), "scripts": getattr(p, "scripts_needed", {}), "runs": []}
             idx += 1
             items.append((case, g, kind))
+            cor_n += 1
+    # workflows of a single step that refers to itself (cycles of length one), at the top level and as the sub-workflow of a loop
+    from ..model import RawExpr
+    for k, (field, node) in enumerate([("wait_for", Expr(RawExpr("$.steps.only.outputs"))), ("wait_for", Expr(Ref("only", "outputs", "success"))), ("wait_for", Expr(Ref("only", "starting", "started"))),
+                                       ("enabled", Expr(Ref("only", "enabling", "resolved", "enabled"))), ("input.a", Expr(Ref("only", "outputs", "success"))), ("stop_if", Expr(Ref("only", "outputs", "success"))),
+                                       ("deploy", {"deployer_name": "scripted", "tag": gen.tagref("only")})]):
+        for nested in (False, True):
+            only = gen.plugin_step("only", Expr(In("tag")), src="only")
+            if field == "input.a":
+                only.fields["input"]["a"] = node
+            else:
+                only.fields[field] = node
+            if nested:
+                sub = Program([only], {"success": {"t": gen.tagref("only")}}, gen.SUB_INPUT, name="sub.yaml")
+                p = Program([Step("loop", "foreach", sub=sub, items=Expr(In("items")))], {"success": {"d": Expr(Ref("loop", "outputs", "success", "data"))}}, gen.BASE_INPUT)
+            else:
+                p = Program([only], {"success": {"t": gen.tagref("only")}}, gen.BASE_INPUT)
+            case = {"id": "c10-%05d" % idx, "files": p.files(), "scripts": {}, "runs": []}
+            idx += 1
+            items.append((case, {"shape": "single-step" + ("-sub-workflow" if nested else ""), "program": p}, "one-step-cycle-through-" + field))
             cor_n += 1
     # the same step registry used for a valid workflow tree and then for one whose sub-workflow file of the same name is
     # corrupted (and the other way round): each preparation must judge the files it is given
